@@ -7,9 +7,9 @@ import common as C
 PID = "C13"
 # (the cg-matrix correspondence also uses the "C12 cg" op of TfPwaV.Model.WignerF)
 DRIVER = [("C13", "TfPwaV.Model.LSX", "LSX.handle")]
-LEAN_TARGETS = ["TfPwaV.Props.C13", "TfPwaV.Props.C13b"]
-PROP_MODULES = ["TfPwaV.Props.C13", "TfPwaV.Props.C13b"]
-ALL_MODULES = ["TfPwaV.Model.LS", "TfPwaV.Model.LSX", "TfPwaV.Model.LSGram", "TfPwaV.Props.C13", "TfPwaV.Props.C13b"] + ["TfPwaV.Proofs.LSGram%d" % i for i in range(6)]
+LEAN_TARGETS = ["TfPwaV.Props.C13", "TfPwaV.Props.C13b", "TfPwaV.Props.C13d"]
+PROP_MODULES = ["TfPwaV.Props.C13", "TfPwaV.Props.C13b", "TfPwaV.Props.C13d"]
+ALL_MODULES = ["TfPwaV.Model.LS", "TfPwaV.Model.LSX", "TfPwaV.Model.LSGram", "TfPwaV.Props.C13", "TfPwaV.Props.C13b", "TfPwaV.Props.C13d"] + ["TfPwaV.Proofs.LSGram%d" % i for i in range(6)]
 ASSUMPTIONS = [
     "spins enter GetA2BC_LS_list as int (integer) or float k/2 (half-integer), as the config loader produces them",
     "parities/C-parities are +1/-1 or None",
@@ -369,7 +369,7 @@ def replay(ctx, payload):
 
 
 MANIFEST = {
-    "text": "Lean theorems for ALL spins (unbounded): membership in the modelled (l,s) list <-> triangle/parity/C-parity rule (ls_mem_iff), strictly sorted hence duplicate-free (ls_sorted, ls_nodup), l_list restriction, cut criterion; kernel-decided count theorem (#couplings = #independent helicity amplitudes) on the whole 2j<=8 grid; exact orthonormality of the columns of the LS->helicity matrix, hence full rank, for all spin triples with 2j<=5 (ls_gram_orthonormal). The model is tied to GetA2BC_LS_list by exact comparison over the spin/parity grid on every run, and the restriction definitions filterL / filterLS of ls_restrict to HelicityDecay.get_ls_list(l_list= / ls_list=) on seeded decays (integer and half-integer s, int and float spellings).",
+    "text": "Lean theorems for ALL spins (unbounded): membership in the modelled (l,s) list <-> triangle/parity/C-parity rule (ls_mem_iff), strictly sorted hence duplicate-free (ls_sorted, ls_nodup), l_list and ls_list restrictions (ls_restrict, ls_restrict_pairs; a user selection that is a sub-list of the rule list is reproduced verbatim, ls_restrict_pairs_verbatim), cut criterion; kernel-decided count theorem (#couplings = #independent helicity amplitudes) on the whole 2j<=8 grid; exact orthonormality of the columns of the LS->helicity matrix, hence full rank, for all spin triples with 2j<=5 (ls_gram_orthonormal). The model is tied to GetA2BC_LS_list by exact comparison over the spin/parity grid on every run, and the restriction definitions filterL / filterLS of ls_restrict to HelicityDecay.get_ls_list(l_list= / ls_list=) on seeded decays (integer and half-integer s, int and float spellings).",
     "note": "Model = TfPwaV.LS.lsList (hand-written, doubled spins) validated against the real GetA2BC_LS_list on the grid 2j<=8 x parities x p_break x ca (quick: 2j<=5 + 12000 sampled rows; thorough: whole grid). Full rank is proved for the exact CG model (2j<=5) and re-checked numerically on the real get_cg_matrix (2j<=5 quick, <=6 thorough); for restricted decays the matrix must be the corresponding rows of the unrestricted one (search). A user ls_list is compared in the order of the selection-rule list (the code returns the user's order verbatim; the order of couplings is not part of C13). Trusted: Lean kernel, standard axioms, harness.",
     "technique": "Lean 4 proof (unbounded membership/no-duplicate theorems, decide +kernel count over the full grid) + exhaustive grid correspondence with the implementation",
 }
